@@ -32,7 +32,10 @@ Definition handle (ts : titles) (a : addr) : res (Z * Z * option Z) :=
           | RIdx r => Ok (Some r)
           | RNone => Ok None
           | RDigits s => if String.eqb s "" then Ok None
-                         else (do k <- int_of_string s; if k - 1 <? 0 then Exc E2PyclCell else Ok (Some (k - 1)))     (* row 0: fix 7edbc3d *)
+                         else match int_of_string s with
+                              | Ok k => if k - 1 <? 0 then Exc E2PyclCell else Ok (Some (k - 1))     (* row 0: fix 7edbc3d *)
+                              | Exc _ => Exc E2PyclCell                                             (* int() refuses the text: fix 34418e3 *)
+                              end
           end;
   Ok (t, c, r).
 
